@@ -1,10 +1,7 @@
 """Sensitivity self-test: seeded faults must be reported, passing twins must stay silent.
-(catalogue filled in sa/mutants.py)"""
+(catalogue in sa/mutants.py)"""
 
 
-def run(prop, rids, tier, seed):
-    try:
-        from . import mutants
-    except ImportError:
-        return None
-    return mutants.run(prop, rids, tier, seed)
+def run(prop, rids, tier, seed, base_obs=None):
+    from . import mutants
+    return mutants.run(prop, rids, tier, seed, base_obs)
